@@ -245,6 +245,9 @@ func (e *StdEvents) Label(in ssa.Instruction) []string {
 		} else {
 			ls = append(ls, "ccmd", "ccmd:dyn")
 		}
+	} else if w := thinCmdWrapper(f); w != nil {
+		// a helper that does nothing but send one command built from its own parameters is that command
+		ls = append(ls, "ccmd", "ccmd:"+w.format)
 	}
 	if n == "(*textproto.Conn).Cmd" {
 		ls = append(ls, "wire-cmd")
@@ -369,4 +372,119 @@ func setterInfo(g *ssa.Function) []setter {
 	}
 	setterCache[g] = out
 	return out
+}
+
+// thinCmdWrapper: g is an unexported function whose only call into the client is one (*Client).cmd with a constant
+// expected code and format, each operand being one of g's own parameters (or a constant), and which makes no other
+// package call. A call to g is then "that command" with the operands bound at the call site.
+type cmdWrap struct {
+	code     int64
+	format   string
+	operands []int // parameter index per operand, -1 for a constant
+	inner    *ssa.Call
+}
+
+var cmdWrapMemo = map[*ssa.Function]*cmdWrap{}
+
+func thinCmdWrapper(g *ssa.Function) *cmdWrap {
+	if g == nil {
+		return nil
+	}
+	if w, ok := cmdWrapMemo[g]; ok {
+		return w
+	}
+	cmdWrapMemo[g] = nil
+	if !inSmtp(g) || isExported(g) || g.Parent() != nil || len(g.Blocks) == 0 || len(g.Blocks) > 4 || qualFuncName(g) == "(*Client).cmd" {
+		return nil
+	}
+	var inner *ssa.Call
+	bad := false
+	allInstrs(g, func(in ssa.Instruction) {
+		call, ok := in.(*ssa.Call)
+		if !ok {
+			if _, isGo := in.(*ssa.Go); isGo {
+				bad = true
+			}
+			if _, isDefer := in.(*ssa.Defer); isDefer {
+				bad = true
+			}
+			return
+		}
+		callee := staticCallee(&call.Call)
+		if callee == nil {
+			bad = true
+			return
+		}
+		if qualFuncName(callee) == "(*Client).cmd" {
+			if inner != nil {
+				bad = true
+			}
+			inner = call
+			return
+		}
+		if inSmtp(callee) {
+			bad = true
+		}
+	})
+	if bad || inner == nil || len(inner.Call.Args) < 4 {
+		return nil
+	}
+	code, okC := constInt(inner.Call.Args[1])
+	format, okF := constString(inner.Call.Args[2])
+	if !okC || !okF {
+		return nil
+	}
+	w := &cmdWrap{code: code, format: format, inner: inner}
+	for _, v := range varargValues(inner.Call.Args[3]) {
+		v = stripConv(v)
+		if _, isK := v.(*ssa.Const); isK {
+			w.operands = append(w.operands, -1)
+			continue
+		}
+		p, isP := v.(*ssa.Parameter)
+		if !isP {
+			return nil
+		}
+		idx := -1
+		for i, q := range g.Params {
+			if q == p {
+				idx = i
+			}
+		}
+		if idx < 0 {
+			return nil
+		}
+		w.operands = append(w.operands, idx)
+	}
+	cmdWrapMemo[g] = w
+	return w
+}
+
+// cmdParts: for an instruction labelled "ccmd": the format (value and constant text if constant) and the operands,
+// seen from the call site — directly for (*Client).cmd, through the wrapper's parameter binding otherwise.
+func cmdParts(in ssa.Instruction) (formatV ssa.Value, format string, fmtConst bool, operands []ssa.Value, ok bool) {
+	cc := callCommon(in)
+	if cc == nil {
+		return nil, "", false, nil, false
+	}
+	g := staticCallee(cc)
+	if g == nil {
+		return nil, "", false, nil, false
+	}
+	if qualFuncName(g) == "(*Client).cmd" && len(cc.Args) >= 4 {
+		format, fmtConst = constString(cc.Args[2])
+		return cc.Args[2], format, fmtConst, varargValues(cc.Args[3]), true
+	}
+	if w := thinCmdWrapper(g); w != nil {
+		inV := varargValues(w.inner.Call.Args[3])
+		for i, idx := range w.operands {
+			if idx >= 0 && idx < len(cc.Args) {
+				operands = append(operands, cc.Args[idx])
+			} else {
+				operands = append(operands, inV[i])
+			}
+		}
+		return w.inner.Call.Args[2], w.format, true, operands, true
+	}
+	return nil, "", false, nil, false
 }
